@@ -1212,6 +1212,9 @@ class _CycleCell(_Cell):
         self._prev_value = None
         self.wip = False
         super().__init__(*args, **kwargs)
+        if self.formula:
+            # the initial value is not a result calculated in this iteration
+            iterative_eval_tracker.ns.computed.discard(self)
 
     @property
     def value(self):
